@@ -751,7 +751,7 @@ def run(ctx):
                 check_bank(ctx, F, S, np, cfg, bad, deep=True)
     ctx.log("searched %d banks, %d certification goals so far" % (nb, len(G.items)))
     # ---- range test
-    ranges = [gen_range(ctx) for _ in range(ctx.scale(240, 2400))]
+    ranges = []
     for cls in classes:  # boundary cases, every class
         for rate in (16000, 8001.0):
             nyq = rate / 2
@@ -759,11 +759,19 @@ def run(ctx):
                 ranges.append(dict(cls=cls, low=20.0, high=high, rate=rate))
             ranges.append(dict(cls=cls, low=-0.5, high=None, rate=rate))
             ranges.append(dict(cls=cls, low=-0.5, high=100.0, rate=rate))
+    # regression of a repaired defect (/repo 82a0881): the triangular bank's 1 Hz leeway admitted a lower edge
+    # above the Nyquist frequency (the clipped upper edge then lay below it and the centres came out decreasing)
+    ranges += [dict(cls="tri", low=8000.5, high=8000.9, rate=16000), dict(cls="tri", low=8000.0, high=8001.0, rate=16000),
+               dict(cls="tri", low=4000.75, high=4001.2, rate=8001.0), dict(cls="tri", low=8000.5, high=None, rate=16000)]
+    ranges += [gen_range(ctx) for _ in range(ctx.scale(240, 2400))]  # fixed boundary / regression cases come first
     nguard = 0
     known_typeerror = []
+    leeway_inverted = []
     for g in ranges:
         out = run_range(F, g)
         ctx.count("range:%s:%s" % (g["cls"], out.split(":")[0]))
+        if g["cls"] == "tri" and g["low"] >= g["rate"] / 2 and out != "reject":
+            leeway_inverted.append(dict(range=g, outcome=out))
         if must_reject(g) and out != "reject":
             if out == "other:TypeError" and g["cls"] != "tri" and g["high"] is None and g["low"] < 0:
                 # finding: the message formats high_hz=None with {:.2f} before the default is applied
@@ -833,6 +841,11 @@ def run(ctx):
                  "None with {:.2f}): %r" % (known_typeerror[0],), dict(check="range_not_rejected", input=known_typeerror[0],
                                                                       occurrences=len(known_typeerror)),
                  kind="impl", key="neg-low-default-high-typeerror")
+    if leeway_inverted:
+        ctx.fail("the triangular bank accepts low_hz at or above the Nyquist frequency (high_hz is then clipped below "
+                 "low_hz and the centres decrease): %r" % (leeway_inverted[0],),
+                 dict(check="range_not_rejected", input=leeway_inverted[0], occurrences=len(leeway_inverted)),
+                 kind="impl", key="tri-leeway-inverted-range")
     seen = set()
     for name, detail in bad:
         if name in seen and len(seen) > 6:
@@ -851,8 +864,9 @@ def run(ctx):
         "AST comparison) and checked pointwise",
         "ERB and L2 norm are DEFINED by textbook closed forms of the Gaussian / gammatone integrals; the implementation's "
         "numerically integrated responses are compared with them",
-        "validity of a range means 0 <= low_hz < effective high_hz <= Nyquist (the triangular bank's 1 Hz leeway also "
-        "admits low_hz in (Nyquist, Nyquist+1): not valid, see NOTES.md)",
+        "validity of a range means 0 <= low_hz < effective high_hz <= Nyquist; every range the triangular bank accepts "
+        "is valid (theorem tri_accepted_is_valid); Fbank / Gabor / gammatone accept high_hz=None with low_hz >= rate//2 "
+        "and read high_hz=0 as 'not given' (observations, outside the property's rejection list)",
     ]
     return C.finish(ctx, "proof")
 
